@@ -12,7 +12,8 @@ RULE = ('real: (sign, 1-17 digits, exponent -300..300) rendered in a drawn Fortr
         'integers; str: arbitrary ASCII-printable (and latin-1) strings <=20 judged by the reference '
         'classifier (python-accepted / blank / impossible character -> nan / Fortran numeral / other = '
         'must not raise); enum: every string up to the stated length over a 14-symbol numeric alphabet. '
-        'Non-trivial = plain float()/int() rejects the text. distinct = distinct case JSON.')
+        'Non-trivial = plain float()/int() rejects the text. distinct = distinct case JSON.'
+        ' Rounds 7-8: one foreign character in a well-formed rendering (on purpose where the exponent letter is); the table readers fortran_read_float / fortran_read_function[e,f,g] judged like fortran_float; read_function_dict() called before every case (must hand out new dictionaries).')
 ASSUMPTIONS = ['Fortran READ semantics taken as: BN blank handling (blanks ignored), D==E, '
                'exponent letter optional when the exponent carries a sign',
                'inputs are str objects (the property quantifies over text)']
